@@ -50,6 +50,16 @@ CHECKS["C17"] = dict(
          "recorded known finding, matched by the reference-computed predicate all_kl_zero.",
     ref="7/C17")
 
+CHECKS["C19"] = dict(
+    technique="property-based testing (Hypothesis) against a numpy slicing reference, with guard-cell sentinels around every input buffer",
+    text="Generated sequences (1-d / multivariate, int / float) embedded in larger buffers whose guard cells hold a sentinel, every "
+         "form of window_sample, padding, strides and kernel lists; the transformer output is compared window by window with "
+         "independent numpy slicing at the documented positions times kernel matrices built from the definitions, and the window count "
+         "with the formula of the property; SequentialDifferenceTransformer against direct differences. Exploration.",
+    note="Kernel matrices of position_velocity, gaussian_weight and explicit ndarrays are taken as given (only the windowing is judged). "
+         "Each generated kernel list costs a numba compile, which bounds the number of cases per run.",
+    ref="7/C19")
+
 PENDING_REASON = "check not built yet in this revision of /verif (planned, see DESIGN.md section 7)"
 
 
